@@ -46,7 +46,7 @@ CHECKS = {
    note="Trusted: the peer's ledger (built from exactly the frames it sent), hook counters for quiescence.",
    ref="6.2 C06"),
  "C14": dict(technique="model-based property testing (rapid): conforming-sender model that blocks exactly when its ledger is exhausted; starvation decided at quiescence",
-   text="A sender model uploads generated bodies (chunking, padding, empty frames, interleaving, streams ending in stream errors with frames in flight), repeating the pattern until more than two connection windows have moved; it sends only when the ledger built from the receiver's SETTINGS/WINDOW_UPDATE frames allows. Violations: increment 0, window above 2^31-1, or a quiescent receiver while the sender cannot send its next frame on a stream that is still open (which is how cumulative credit leaks surface). Server half only so far (client half is listed in DESIGN as a later lane). Exploration only.",
+   text="A sender model uploads generated bodies (chunking, padding, empty frames, interleaving, streams ending in stream errors with frames in flight), repeating the pattern until more than two connection windows have moved; it sends only when the ledger built from the receiver's SETTINGS/WINDOW_UPDATE frames allows. Violations: increment 0, window above 2^31-1, or a quiescent receiver while the sender cannot send its next frame on a stream that is still open (which is how cumulative credit leaks surface). The client lane mirrors it for downloads through RoundTrip against the scripted server as sender model, including requests abandoned by their callers (MaxResponseTime) while the server keeps sending, and padded / all-padding DATA frames. Exploration only.",
    note="Trusted: the sender model's ledger; hook counters for quiescence.",
    ref="6.2 C14"),
  "C10": dict(technique="property-based testing (rapid) of offence placement with fault behaviours of the peer (silent / keeps sending / floods / stops reading / closes); invariants over the observed history (GOAWAY vs handler log), bounded-time return with goroutine-dump evidence",
